@@ -174,6 +174,16 @@ impl ServerWorld {
         Ok(())
     }
 
+    /// The last trusted device revokes itself (patch of the device log + sync).
+    pub async fn revoke_k1(&mut self) -> Result<()> {
+        {
+            let mut acc = self.a.lock().await;
+            acc.patch_devices_unchecked(&[DeviceEvent::Revoke(self.k1.public_key())]).await?;
+        }
+        self.sync_a().await?;
+        Ok(())
+    }
+
     /// Revoke k2 by a forced update of the device log (update_account with a
     /// device diff that only holds the first device).
     pub async fn revoke_k2_force(&mut self) -> Result<()> {
@@ -413,12 +423,23 @@ async fn run_world(cases: &[Value], scratch: &Path, out: &mut Summary, known: &[
     let _ = std::fs::remove_dir_all(&dir);
     std::fs::create_dir_all(&dir)?;
     let mut world = ServerWorld::new(&dir).await?;
-    // cases of the initial trust phase first, then revoke
+    // cases of the initial trust phase first, then revoke the second device, then the last one
     let mut ordered: Vec<&Value> = cases.iter().collect();
-    ordered.sort_by_key(|c| c["trusted"].as_array().map(|a| a.len()).unwrap_or(0) < 2);
+    ordered.sort_by_key(|c| 2 - c["trusted"].as_array().map(|a| a.len()).unwrap_or(0).min(2));
     let mut acl_now = String::new();
+    let mut none_trusted = false;
     for case in ordered {
-        let two = case["trusted"].as_array().map(|a| a.len()).unwrap_or(0) == 2;
+        let ntrusted = case["trusted"].as_array().map(|a| a.len()).unwrap_or(0);
+        let two = ntrusted == 2;
+        if ntrusted == 0 && !none_trusted {
+            world.set_acl("none").await;
+            acl_now.clear();
+            if !world.revoked {
+                world.revoke_k2().await?;
+            }
+            world.revoke_k1().await?;
+            none_trusted = true;
+        }
         if !two && !world.revoked {
             world.set_acl("none").await;
             acl_now.clear();
@@ -461,7 +482,7 @@ async fn run_world(cases: &[Value], scratch: &Path, out: &mut Summary, known: &[
         out.steps += 1;
         let after = world.server_state().await?;
         let refused = matches!(status, 400 | 401 | 403);
-        let phase = if two { "2dev".to_string() } else { format!("revoked-by-{}", case["revokedBy"].as_str().unwrap_or("?")) };
+        let phase = if two { "2dev".to_string() } else if ntrusted == 0 { "none-trusted".to_string() } else { format!("revoked-by-{}", case["revokedBy"].as_str().unwrap_or("?")) };
         let key = format!("{acl}|{phase}|{method} {route}|{cred}");
         out.nontrivial_keys.push(key.clone());
         if expect == "refused" {
